@@ -2,7 +2,7 @@
 import copy
 from trees import *
 
-RULE = ("(40% of the interpretations give some leaf a value outside its declared bounds) seeded random validated models over all constructor classes (depth<=3 quick / <=4 thorough, boolean/integer/"
+RULE = ("bare variables with interpretations that name / do not name them (int, numpy integer, tuple, Bounds); (40% of the interpretations give some leaf a value outside its declared bounds) seeded random validated models over all constructor classes (depth<=3 quick / <=4 thorough, boolean/integer/"
         "int16 leaves, shared sub-objects), each with total leaf interpretations rendered as int / tuple / Bounds and "
         "optional constant overrides of sub-proposition ids; non-trivial = the model has a compound child or an integer "
         "leaf; distinct = distinct (model, interpretation) pairs")
@@ -10,7 +10,25 @@ ASSUMPTIONS = ["models are validated, reference-free (no leaf shares an id with 
                "evaluate is called on a deep copy (finding F-C09a: the call mutates named compound ids)"]
 
 
+def do_var_case(ctx, inp):
+    """a bare variable: `variable.evaluate` takes the interpreted value in every accepted form, else its own bounds"""
+    i, lo, hi = inp["var"]
+    I = {k: tuple(v) for k, v in inp["I"].items()}
+    ctx.case(inp, nontrivial=(lo, hi) != (0, 1) or i in I, tags={"bare-variable", "named" if i in I else "not-named"})
+    v = puan.variable(i, (lo, hi))
+    got = v.evaluate(render_interp(ctx.rng, I))
+    got = [int(got.lower), int(got.upper)]
+    ctx.op({"op": "evaluate", "t": {"k": "leaf", "id": i, "lo": lo, "hi": hi}, "I": interp_json(I)}, {"b": got})
+    want = list(I[i]) if i in I else [lo, hi]
+    if got != want:
+        ctx.fail("variable-evaluate-wrong", {"variable": [i, lo, hi], "interpretation": interp_json(I), "got": got, "want": want})
+    if (v.bounds.lower, v.bounds.upper) != (lo, hi):
+        ctx.fail("variable-evaluate-mutated-the-variable", {"variable": [i, lo, hi], "now": [int(v.bounds.lower), int(v.bounds.upper)]})
+
+
 def do_case(ctx, inp):
+    if "var" in inp:
+        return do_var_case(ctx, inp)
     a, I = inp["ast"], {k: tuple(v) for k, v in inp["I"].items()}
     o = build(a)
     t = snap(o)
@@ -35,6 +53,14 @@ def do_case(ctx, inp):
 
 
 def run(ctx):
+    for _ in range(40 if ctx.quick else 400):
+        lo = ctx.rng.randint(-4, 3); hi = lo + ctx.rng.randint(0, 4)
+        if ctx.rng.random() < 0.4: lo, hi = 0, 1
+        I = {}
+        for k in ctx.rng.sample(["a", "b", "x"], ctx.rng.randint(0, 3)):
+            c = ctx.rng.randint(lo - 2, hi + 2)
+            I[k] = [c, c] if ctx.rng.random() < 0.6 else [c, c + ctx.rng.randint(0, 3)]
+        do_case(ctx, {"var": ["a", lo, hi], "I": I})
     n_models = (60 if ctx.quick else 600) * (3 if ctx.search else 1)
     for _ in range(n_models):
         a, o, t = gen_valid(ctx.rng, ctx.quick)
